@@ -58,7 +58,7 @@ var targets = []string{
 var jobMethods = map[string]bool{"importPcapJob": true, "updateTagJob": true, "mergeIndexesJob": true, "convertStreamJob": true}
 
 type stats struct {
-	Creates, Spawned, JobBegin, JobPost, JobYield, Unlocked, Clock, Ticker, MapRange, MapRangeSkipped, IOPoints, NumCPU, KnobSnap, KnobCleanup, WorkerIdle int
+	Creates, Opens, Spawned, JobBegin, JobPost, JobYield, Unlocked, Clock, Ticker, MapRange, MapRangeSkipped, IOPoints, NumCPU, KnobSnap, KnobCleanup, WorkerIdle int
 }
 
 func fail(format string, a ...any) {
@@ -645,6 +645,11 @@ func (rw *rewriter) rewriteExprs() {
 					Names:  []*ast.Ident{ast.NewIdent("_")},
 					Values: []ast.Expr{&ast.SelectorExpr{X: ast.NewIdent("os"), Sel: ast.NewIdent("Args")}},
 				}}})
+			} else if p == "os" && nm == "OpenFile" && rw.pkg == "cmd/pkappa2" {
+				// descriptor exhaustion seam of the upload handler
+				x.Fun = &ast.SelectorExpr{X: ast.NewIdent("simrt"), Sel: ast.NewIdent("OSOpenFile")}
+				rw.usedRT = true
+				rw.st.Opens++
 			} else if p == "runtime" && nm == "NumCPU" {
 				x.Fun = &ast.SelectorExpr{X: ast.NewIdent("simrt"), Sel: ast.NewIdent("NumCPU")}
 				rw.usedRT = true
